@@ -21,7 +21,7 @@ RULE = ("accept/reject contract on VerifyingKey.from_string / from_der / from_pe
         "(SECP112r2: orders 2,4,2n,4n; toy curves with cofactor), point objects incl. negated points. "
         "non-trivial key = (curve, encoding, container, validity class)")
 ASSUMPTIONS = ["reference validator vf/ref/sec1.py + affine arithmetic", "Tonelli-Shanks reference square root"]
-REQUIRED = {"quick": ["valid", "valid.leading_zero", "alias_x_plus_p", "coord_eq_p", "off_curve", "nonresidue_x", "hybrid_parity_flip", "bad_prefix",
+REQUIRED = {"quick": ["mid.valid", "valid", "valid.leading_zero", "alias_x_plus_p", "coord_eq_p", "off_curve", "nonresidue_x", "hybrid_parity_flip", "bad_prefix",
                       "bad_length", "subgroup.outside", "object.valid", "object.negated", "object.invalid", "der.raw_inside", "der.bad_wrapper",
                       "toy.subgroup.outside", "toy.valid"]}
 EXHAUSTIVE = {"quick": ["toy curves with cofactor > 1 over F_11..F_23 (sample): every on-curve point and every (x,y) pair in 4 encodings"],
@@ -412,6 +412,14 @@ def run(ctx, name, kind, **kw):
             for pre in (2, 3):
                 data = bytes([pre]) + x.to_bytes(L, "big")
                 judge_bytes(ctx, curve, dom, data, "mid.compressed", "p%dmod8|h%d" % (p % 8, h), "string", "compressed")
+        # valid keys by construction (multiples of the base point), in all four encodings - random x values rarely land in a small subgroup
+        Pk = None
+        for k_ in range(1, 120):
+            Pk = dom.curve.add(Pk, P0)
+            if Pk is None:
+                break
+            for enc in ("raw", "uncompressed", "compressed", "hybrid"):
+                judge_bytes(ctx, curve, dom, sec1.encode_point(dom, Pk, enc), "mid.valid", "p%dmod8|L%d|%s" % (p % 8, L, enc), "string", enc)
         for P in (pts_all[:: max(1, len(pts_all) // 300)] if pts_all else []):
             for enc in ("uncompressed", "hybrid"):
                 judge_bytes(ctx, curve, dom, sec1.encode_point(dom, P, enc), "mid.full", "p%dmod8" % (p % 8), "string", enc)
